@@ -674,7 +674,10 @@ class _AsyncNodeWrapper:
             # todo: have a single buffer for step_state used for both in and out
             tick_promoted = onp.array(tick).astype(self._step_state.seq.dtype)
             ts_start_sc_promoted = onp.array(ts_start_sc).astype(self._step_state.ts.dtype)
-            step_state = self._step_state.replace(seq=tick_promoted, ts=ts_start_sc_promoted, inputs=FrozenDict(inputs))
+            eps_promoted = onp.array(self._eps).astype(self._step_state.eps.dtype)  # The episode the record and headers report
+            step_state = self._step_state.replace(
+                eps=eps_promoted, seq=tick_promoted, ts=ts_start_sc_promoted, inputs=FrozenDict(inputs)
+            )
 
             # Record before running step
             record_step = record_step.replace(
